@@ -12,7 +12,7 @@
 //!
 //! All subjects share one case type (`SaCase { text, entry }`) and one `run` function that dispatches on `entry`,
 //! so that a known finding with subject `SuffixArray/*` (one construction defect seen through several entry
-//! points) can be replayed on whichever subject is registered first.
+//! points) can be replayed on any of them.
 
 use serde::{de::DeserializeOwned, Deserialize, Serialize};
 use std::cell::OnceCell;
@@ -840,7 +840,7 @@ fn dictionary_gen(tier: Tier, f: &mut dyn FnMut(SaCase) -> bool) -> bool {
 
 fn main() {
     zverif::main_with("C12", |reg, _tier| {
-        // SA-IS first: findings with subject "SuffixArray/*" are replayed on the first registered match, and every
+        // SA-IS first: findings with subject "SuffixArray/*" are replayed on the matching subjects in registration order, and every
         // subject runs any `SaCase` the same way
         for (alg, name) in [(Alg::SAIS, "SAIS"), (Alg::DivSufSort, "DivSufSort"), (Alg::DC3, "DC3"), (Alg::LarssonSadakane, "LarssonSadakane"), (Alg::Adaptive, "Adaptive")] {
             add(
